@@ -116,7 +116,8 @@ def task(t):
             rows = int(call["rows"]) if "rows" in call else int(call["r2"])
             if cmode == "none" and rows > 0:
                 continue
-            if cmode == "required" and rows == 0:
+            empty = op == "log_prob" and int(call["r1"]) == 0
+            if cmode == "required" and rows == 0 and not empty:
                 continue
             if cmode == "logprob_only" and op != "log_prob":
                 continue
@@ -129,6 +130,8 @@ def task(t):
                 if "Bernoulli" in name:
                     x = (x > 0).float()
                 ctx = make_context(torch, name, rows, event, marker)
+                if empty and cmode == "required":
+                    ctx = make_context(torch, name, 1, event, marker)[:0]
                 # the interface converts array-likes itself (torch.as_tensor): the contract is the same for
                 # a tensor, a numpy array and a nested list
                 if ctx is not None:
